@@ -47,6 +47,12 @@ def straddles (s : Store) (ch hw : Nat) : Bool :=
     | (.pc c _, .prop b l _ _ _) => c == ch && b < hw && l > hw
     | _ => false)
 
+/-- the exported retention state never carries a LEO floor above the cut: RetainedMaxSeq is clamped to
+    max hw LocalRetentionThroughSeq (fix d22c43ed1 in snapshotBackupSystemEntries) -/
+def clampRet (hw : Nat) : Key × Val → Key × Val
+  | (.ret c, .ret l p m) => if m > hw then (.ret c, .ret l p (max hw l)) else (.ret c, .ret l p m)
+  | e => e
+
 def rowsUpTo (s : Store) (ch hw : Nat) : List (Nat × Val) :=
   (sortedSeqs s ch).filterMap (fun q => if 1 ≤ q ∧ q ≤ hw then (get s (.row ch q)).map (fun v => (q, v)) else none)
 
@@ -56,7 +62,7 @@ def exportCh (s : Store) (c : Cut) : Option ChanRec :=
   else if straddles s c.ch c.hw then none
   else
     let rows := rowsUpTo s c.ch c.hw
-    some ⟨c.ch, c.ep, c.st, c.hw, s.filter (sysKeep c.ch c.hw), rows.length, rows⟩
+    some ⟨c.ch, c.ep, c.st, c.hw, (s.filter (sysKeep c.ch c.hw)).map (clampRet c.hw), rows.length, rows⟩
 
 def exportAll (s : Store) : List Cut → Option (List ChanRec)
   | [] => some []
